@@ -80,7 +80,8 @@ type Event struct {
 
 type actState struct {
 	path    string
-	calls   int // invocations in this process (guarded by logMu)
+	inv     sync.Mutex // held from before Start is logged until End is logged: invocations of one action do not overlap in the log
+	calls   int        // invocations in this process (guarded by logMu)
 	flying  int
 	overrun bool
 }
@@ -330,6 +331,10 @@ func behave(ctx context.Context, p *hplug.Plugin, req any) (any, *plugins.Error)
 		logMu.Unlock()
 		return p.OKResp(req), nil
 	}
+	logMu.Unlock()
+	a.inv.Lock()
+	defer a.inv.Unlock()
+	logMu.Lock()
 	a.calls++
 	call := a.calls
 	a.flying++
